@@ -1747,8 +1747,9 @@ def lt(left: Any, right: Any) -> bool:
     # only when left has a smaller length.
     return len(left) < len(right)
   elif isinstance(left, dict):
-    lkeys = list(left.keys())
-    rkeys = list(right.keys())
+    # Key order does not matter for `eq`, thus it does not matter here either.
+    lkeys = sorted_dict_keys(left)
+    rkeys = sorted_dict_keys(right)
     min_len = min(len(lkeys), len(rkeys))
     for i in range(min_len):
       kl, kr = lkeys[i], rkeys[i]
@@ -1756,7 +1757,7 @@ def lt(left: Any, right: Any) -> bool:
         if not eq(left[kl], right[kr]):
           return lt(left[kl], right[kr])
       else:
-        return kl < kr
+        return lt(kl, kr)
     # `left` and `right` are equal so far, so `left is less than `right`
     # only when left has fewer keys.
     return len(lkeys) < len(rkeys)
@@ -1778,6 +1779,11 @@ def gt(left: Any, right: Any) -> bool:
     True if the left value is symbolically greater than the right value.
   """
   return lt(right, left)   # pylint: disable=arguments-out-of-order
+
+
+def sorted_dict_keys(value: Dict[Any, Any]) -> List[Any]:
+  """Returns the keys of a dict in a canonical (insertion-independent) order."""
+  return sorted(value.keys(), key=lambda k: (_type_order(k), k))
 
 
 def _type_order(value: Any) -> str:
